@@ -351,6 +351,43 @@ def Heap.writeAnnot (h : Heap) (o : Obj) (a : Annot) : Heap := { h with annots :
 /-- The copy path of the code as it is (checked against `Gen/C13.lean` in `Props/C13.lean`). -/
 def copyKinds : CopyKind × CopyKind × CopyKind := (.copyCall, .copyCall, .plain)
 
+/-! ## In-place edits of the annotation / of a slice of the sequence, small queries -/
+
+/-- `Feature.__eq__` (key, qualifiers, location *set*). -/
+def Feature.same (f g : Feature) : Bool :=
+  f.key == g.key && f.qual == g.qual && f.locs.all (fun l => g.locs.contains l) &&
+    g.locs.all (fun l => f.locs.contains l)
+
+/-- `feature in annotation`. -/
+def annotHas (a : Annot) (f : Feature) : Bool := a.any (fun g => Feature.same f g)
+
+/-- `annotation.add_feature(f)` / `annotation += f` (set semantics are applied by the observations). -/
+def annotAdd (a : Annot) (f : Feature) : Annot := a ++ [f]
+
+/-- `annotation.del_feature(f)` / `del annotation[f]`: `set.remove`, `KeyError` if absent. -/
+def annotDel (a : Annot) (f : Feature) : Except Err Annot :=
+  if annotHas a f then .ok (a.filter (fun g => !Feature.same f g)) else .error .keyError
+
+/-- `len(annotation)`. -/
+def annotCount : Annot → Nat
+  | [] => 0
+  | f :: r => (if annotHas r f then 0 else 1) + annotCount r
+
+/-- `Annotation.get_location_range()`: `(min first, max last + 1)`, starting from `±sys.maxsize`. -/
+def annotRange (a : Annot) : Int × Int :=
+  let r := a.foldl (fun acc f => f.locs.foldl (fun (acc : Int × Int) l =>
+      (if l.first < acc.1 then l.first else acc.1, if l.last > acc.2 then l.last else acc.2)) acc)
+    (maxsize, -maxsize)
+  (r.1, r.2 + 1)
+
+/-- `AnnotatedSequence.__setitem__(slice(a, b), item)` (no range check in the code). -/
+def setSlice (s : ASeq) (a b : Option Int) (v : List Nat) : Except Err ASeq :=
+  let seqStart : Int := match a with | none => 0 | some a => a - s.start
+  let seqStop : Int := match b with | none => (s.seq.length : Int) | some b => b - s.start
+  match assignSlice s.seq seqStart seqStop v with
+  | .error e => .error e
+  | .ok seq' => .ok { s with seq := seq' }
+
 /-! ## Accessors: what editing the object handed out by a property does to the owner -/
 
 /-- An accessor either hands out a copy / an immutable object, or the internal object itself. -/
